@@ -26,7 +26,8 @@ RULE = (
     "operation must complete (no exception that no double raised). Then EVERY suspension i is re-run with an "
     "exception thrown at it: the awaitable suspended there must receive that very object. (b) With only "
     "synchronous arguments (lists / iterators / plain functions) every tool, aggregation and adapter completes "
-    "with zero suspensions. (c) While all this runs, and in a fresh subprocess where asyncio's loop accessors, "
+    "with zero suspensions - also for long inputs (40-90 items, runs of 70-100 equal keys in groupby), so that "
+    "no size threshold hides a suspension. (c) While all this runs, and in a fresh subprocess where asyncio's loop accessors, "
     "Lock, sleep, Future, tasks ... are replaced BEFORE asyncstdlib is imported, a generated battery of "
     "operations must complete with zero recorded accesses. Non-trivial: a run with >= 2 suspensions from >= 2 "
     "different doubles, or an all-sync run of a tool with a callable. One evaluation = one driven run."
@@ -122,8 +123,9 @@ def check_sync(case):
 
 
 @st.composite
-def sync_cases(draw, name):
-    case = draw(base_case(name, max_len=4, max_src=3))
+def sync_cases(draw, name, long=False):
+    case = draw(base_case(name, max_len=4, max_src=3) if not long else
+                base_case(name, max_len=90, min_len=40, max_src=2))
     if name != "iter_sentinel":
         for s in case["srcs"]:
             s["fl"] = draw(st.sampled_from(["list", "iter", "seq"]))
@@ -248,6 +250,20 @@ def _adapters():
     async def groupby():
         return [(k, await a.list(g)) async for k, g in a.groupby([1, 1, 2], key=lambda x: x)]
 
+    async def groupby_long():
+        out = []
+        async for key, group in a.groupby([i // 70 for i in range(300)]):
+            out.append((key, [x async for _, x in a.zip(range(3), group)]))  # most of each run is skipped
+        gb = a.groupby(list(range(100)), key=lambda x: 0)
+        async for key, group in gb:
+            pass
+        return out
+
+    async def long_chain():
+        return [await a.list(a.islice(a.cycle(range(50)), 400)), await a.nlargest(range(500), 40),
+                await a.list(a.batched(range(333), 64)), await a.list(a.merge(*[range(60)] * 7)),
+                await a.sorted(range(200), key=lambda x: -x), await a.reduce(lambda x, y: y, range(300))]
+
     async def tee():
         async with a.tee([1, 2], 2) as (x, y):
             return await a.list(a.zip(x, y))
@@ -261,7 +277,8 @@ def _adapters():
         "closing": lambda: _with(a.closing(a.iter([1]))),
         "nullcontext": lambda: _with(a.nullcontext(1)),
         "ExitStack": stack, "scoped_iter/borrow": scoped, "lru_cache": cached, "cached_property": prop,
-        "contextmanager": cm, "groupby": groupby, "tee": tee,
+        "contextmanager": cm, "groupby": groupby, "tee": tee, "groupby-long-runs": groupby_long,
+        "long-inputs": long_chain,
     }
 
 
@@ -415,6 +432,8 @@ def shards(tier):
     for name, strat, runner in specials:
         out.append(Shard(name, (lambda case, runner=runner, name=name: check_special(case, runner, name)),
                          strategy=strat(tier), n=150, nontrivial=lambda c: False, thorough_mult=15))
+    out += [Shard(f"sync-long-{name}", check_sync, strategy=sync_cases(name, long=True), n=25,
+                  nontrivial=lambda c: True, thorough_mult=10) for name in ALL]
     out.append(Shard("tee-concurrent-close", check_tee_close, strategy=tee_close_cases(), n=400,
                      nontrivial=lambda c: True, thorough_mult=10))
     out.append(Shard("sync-adapters", check_adapter, cases=lambda: [{"adapter": k} for k in _adapters()],
